@@ -24,6 +24,9 @@ pub assume_specification<T, F: FnOnce() -> T>[ Option::<T>::get_or_insert_with ]
     *old(o) is None ==> f.ensures((), *r),
     *final(o) == Some(*final(r));
 
+#[verifier::allow(undeclared_external_trait)]
+pub assume_specification<T>[ std::mem::drop ](x: T) where T: std::marker::Destruct;
+
 // ---- notifications ----------------------------------------------------------------------------
 pub enum Ev<Item, Err> { Next(Item), Error(Err), Complete }
 
@@ -137,12 +140,11 @@ pub trait HObserver<Item, Err>: Sized {
   fn next(&mut self, value: Item)
     requires old(self).hwf(),
     ensures final(self).hwf();
+  // (the real receiver is consumed by a terminal: nothing is promised about the handle afterwards)
   fn error(&mut self, err: Err)
-    requires old(self).hwf(),
-    ensures final(self).hwf();
+    requires old(self).hwf();
   fn complete(&mut self)
-    requires old(self).hwf(),
-    ensures final(self).hwf();
+    requires old(self).hwf();
   fn is_finished(&self) -> (r: bool)
     requires self.hwf(),
     ensures r == self.hfin();
@@ -191,4 +193,13 @@ pub trait HObservable<Item, Err, O: Observer<Item, Err>>: Sized {
   fn actual_subscribe(&mut self, observer: O) -> (u: Self::Unsub)
     requires old(self).hsrc_wf(), observer.wf(), observer.records(),
     ensures final(self).hsrc_wf();
+}
+
+// an observable subscribed with a handle-world observer (e.g. merge_all's inner observer)
+pub trait ObservableH<Item, Err, O: HObserver<Item, Err>>: Sized {
+  type Unsub;
+  spec fn hsubscribed(src: Self, o: O, u: Self::Unsub) -> bool;
+  fn actual_subscribe(self, observer: O) -> (u: Self::Unsub)
+    requires observer.hwf(),
+    ensures Self::hsubscribed(self, observer, u);
 }
